@@ -15,6 +15,7 @@ import (
 	"context"
 	"errors"
 	"fmt"
+	"io"
 	"os"
 	"runtime"
 	"sort"
@@ -35,6 +36,12 @@ type Case struct {
 	Maps    map[string][][]any `json:"maps"`
 	Red     [][]any            `json:"red"`
 	Events  [][]any            `json:"events"`
+	// options: Workers -1 = no WithWorkers option; WorkersFirst (if present) = an earlier
+	// WithWorkers in the option list (the last one wins); Ctx = "" (a cancellable context is
+	// passed, "c" events cancel it), "none" (no WithContext option), "pre" (already cancelled
+	// when the call starts), "expired" (deadline already exceeded when the call starts)
+	WorkersFirst *int   `json:"workers_first"`
+	Ctx          string `json:"ctx"`
 }
 
 type Out struct {
@@ -55,6 +62,33 @@ type userPanic int
 type cancelErr int
 
 func (c cancelErr) Error() string { return fmt.Sprintf("cancel-%d", int(c)) }
+
+// an error of another concrete (pointer) type
+type ptrErr struct{ k int }
+
+func (p *ptrErr) Error() string { return fmt.Sprintf("ptr-%d", p.k) }
+
+// cancel codes >= 1000: error values that go-zero or the standard library treat specially,
+// bare and wrapped, and errors of other concrete types (retErr is an atomic.Value)
+var sentinels = map[int]error{
+	1001: mr.ErrCancelWithNil,
+	1002: mr.ErrReduceNoOutput,
+	1003: context.Canceled,
+	1004: context.DeadlineExceeded,
+	1005: fmt.Errorf("wrapped: %w", mr.ErrReduceNoOutput),
+	1006: fmt.Errorf("wrapped: %w", context.DeadlineExceeded),
+	1007: io.EOF,
+	1008: &ptrErr{1008},
+	1009: errors.New("plain"),
+	1010: fmt.Errorf("wrapped: %w", mr.ErrCancelWithNil),
+}
+
+func cancelErrOf(k int) error {
+	if e, ok := sentinels[k]; ok {
+		return e
+	}
+	return cancelErr(k)
+}
 
 var free = os.Getenv("VERIF_FREE") == "1"
 
@@ -177,7 +211,7 @@ func (r *runner) userActs(t *thread, w mr.Writer[int], cancel func(error), pipe 
 			}
 		case "cancel":
 			if cancel != nil {
-				cancel(cancelErr(num(a[1])))
+				cancel(cancelErrOf(num(a[1])))
 			}
 		case "cancelnil":
 			if cancel != nil {
@@ -229,11 +263,47 @@ func (r *runner) fn(i int) (err error) {
 	a := t.script[0]
 	switch a[0].(string) {
 	case "cancel":
-		return cancelErr(num(a[1]))
+		return cancelErrOf(num(a[1]))
 	case "panic":
 		panic(userPanic(num(a[1])))
 	}
 	return nil
+}
+
+// the sentinel codes that occur in the scripts of the case
+func (r *runner) usedSentinels() []int {
+	seen := map[int]bool{}
+	scan := func(sc [][]any) {
+		for _, a := range sc {
+			if a[0].(string) == "cancel" {
+				if k := num(a[1]); k >= 1000 {
+					seen[k] = true
+				}
+			}
+		}
+	}
+	scan(r.c.Red)
+	for _, sc := range r.c.Maps {
+		scan(sc)
+	}
+	ks := []int{}
+	for k := range seen {
+		ks = append(ks, k)
+	}
+	sort.Ints(ks)
+	return ks
+}
+
+func (r *runner) classify(val int, err error, hasVal bool) []any {
+	// an error value that one of the scripts passed to cancel is recognised by identity
+	if err != nil {
+		for _, k := range r.usedSentinels() {
+			if err == sentinels[k] {
+				return []any{"cancel", k}
+			}
+		}
+	}
+	return classify(val, err, hasVal)
 }
 
 func classify(val int, err error, hasVal bool) []any {
@@ -282,8 +352,11 @@ func (r *runner) call(ctx context.Context) (res []any) {
 	}()
 	w := r.c.Workers
 	opts := []mr.Option{}
-	if w >= 0 {
-		// a negative count means: no WithWorkers option (defaultWorkers)
+	if r.c.WorkersFirst != nil {
+		opts = append(opts, mr.WithWorkers(*r.c.WorkersFirst))
+	}
+	if w != -1 {
+		// -1 means: no WithWorkers option (defaultWorkers); other negative counts are passed on
 		opts = append(opts, mr.WithWorkers(w))
 	}
 	if ctx != nil {
@@ -292,12 +365,12 @@ func (r *runner) call(ctx context.Context) (res []any) {
 	switch r.c.API {
 	case "mr":
 		v, err := mr.MapReduce(r.generate, r.mapper, r.reducer, opts...)
-		return classify(v, err, true)
+		return r.classify(v, err, true)
 	case "void":
 		err := mr.MapReduceVoid(r.generate, r.mapper, func(pipe <-chan int, cancel func(error)) {
 			r.reducer(pipe, nil, cancel)
 		}, opts...)
-		return classify(0, err, false)
+		return r.classify(0, err, false)
 	case "chan":
 		source := make(chan int)
 		go func() {
@@ -305,7 +378,7 @@ func (r *runner) call(ctx context.Context) (res []any) {
 			r.generate(source)
 		}()
 		v, err := mr.MapReduceChan(source, r.mapper, r.reducer, opts...)
-		return classify(v, err, true)
+		return r.classify(v, err, true)
 	case "foreach":
 		mr.ForEach(r.generate, func(item int) { r.mapper(item, nil, nil) }, opts...)
 		return []any{"unit"}
@@ -316,7 +389,7 @@ func (r *runner) call(ctx context.Context) (res []any) {
 			i := i
 			fns[i] = func() error { return r.fn(i) }
 		}
-		return classify(0, mr.Finish(fns...), false)
+		return r.classify(0, mr.Finish(fns...), false)
 	case "finishvoid":
 		n := len(r.c.Gen)
 		fns := make([]func(), n)
@@ -370,6 +443,19 @@ func runCase(c Case) Out {
 
 	ctx, cancelCtx := context.WithCancel(context.Background())
 	defer cancelCtx()
+	pre := false
+	switch c.Ctx {
+	case "none":
+		ctx = nil
+	case "pre":
+		cancelCtx()
+		pre = true
+	case "expired":
+		var cancel2 context.CancelFunc
+		ctx, cancel2 = context.WithDeadline(context.Background(), time.Now().Add(-time.Second))
+		defer cancel2()
+		pre = true
+	}
 	var result atomic.Value
 	var returned atomic.Bool
 	go func() {
@@ -415,7 +501,11 @@ func runCase(c Case) Out {
 			return out
 		}
 		out.Fired = append(out.Fired, [2]bool{true, returned.Load()})
-		out.Acts = append(out.Acts, 1)
+		if pre && !r.foreach {
+			out.Acts = append(out.Acts, 2)
+		} else {
+			out.Acts = append(out.Acts, 1)
+		}
 		lookup := func(ev []any) (*thread, bool) {
 			switch ev[0].(string) {
 			case "g":
@@ -436,7 +526,7 @@ func runCase(c Case) Out {
 			}
 			return nil, false
 		}
-		ctxDone := false
+		ctxDone := pre || c.Ctx == "none"
 		issue := func(ev []any) bool {
 			fired := false
 			kind := 0
